@@ -484,18 +484,19 @@ impl VisitMut for Annot {
         let be = Ident::new(&format!("__vx_be_{}_{}", f, k), proc_macro2::Span::call_site());
         let pre = Ident::new(&format!("__vx_pre_{}_{}", f, k), proc_macro2::Span::call_site());
         let post = Ident::new(&format!("__vx_post_{}_{}", f, k), proc_macro2::Span::call_site());
+        let lattr = Ident::new(&format!("__vx_lattr_{}_{}", f, k), proc_macro2::Span::call_site());
         let ts = match e {
             Expr::ForLoop(fl) => {
                 let (pat, expr, label, stmts) = (&fl.pat, &fl.expr, &fl.label, &fl.body.stmts);
-                quote!( { #pre; #label for #pat in #it : #expr #inv { #bs; #(#stmts)* #be; } #post; } )
+                quote!( { #pre; #lattr #label for #pat in #it : #expr #inv { #bs; #(#stmts)* #be; } #post; } )
             }
             Expr::While(w) => {
                 let (cond, label, stmts) = (&w.cond, &w.label, &w.body.stmts);
-                quote!( { #pre; #label while #cond #inv { #bs; #(#stmts)* #be; } #post; } )
+                quote!( { #pre; #lattr #label while #cond #inv { #bs; #(#stmts)* #be; } #post; } )
             }
             Expr::Loop(l) => {
                 let (stmts, label) = (&l.body.stmts, &l.label);
-                quote!( { #pre; #label loop #inv { #bs; #(#stmts)* #be; } #post; } )
+                quote!( { #pre; #lattr #label loop #inv { #bs; #(#stmts)* #be; } #post; } )
             }
             _ => unreachable!(),
         };
@@ -543,7 +544,7 @@ fn load_contracts(paths: &[String]) -> Contracts {
                     "spec" => format!("__vx_spec_{}", f),
                     "fs" => format!("__vx_fs_{}", f),
                     "attr" => format!("__vx_attr_{}", f),
-                    "inv" | "dec" | "bs" | "be" | "pre" | "post" => {
+                    "inv" | "dec" | "bs" | "be" | "pre" | "post" | "lattr" => {
                         if parts.len() < 2 { eprintln!("VX-ERROR {}:{} missing loop ordinal", path, ln + 1); std::process::exit(4); }
                         let kk: usize = parts[1].parse().unwrap_or(0);
                         for p in &parts[2..] { if let Some(h) = p.strip_prefix("@hdr=") { c.hdr_expect.insert((f.clone(), kk), h.to_string()); } }
@@ -598,6 +599,8 @@ fn substitute(text: &str, c: &Contracts) -> String {
             let dec = m.get(&format!("__vx_dec_{}", suffix));
             if let Some(t) = m.get(id) { out.push_str("\n//@vc-begin invariant\n invariant\n"); out.push_str(t); out.push_str("//@vc-end\n"); }
             if let Some(t) = dec { out.push_str("\n//@vc-begin decreases\n decreases\n"); out.push_str(t); out.push_str("//@vc-end\n"); }
+        } else if id.starts_with("__vx_lattr_") {
+            if let Some(t) = m.get(id) { for l in t.lines() { if !l.starts_with("//@vc") { out.push_str(l); out.push('\n'); } } }
         } else if id.starts_with("__vx_attr_") {
             if let Some(t) = m.get(id) { for l in t.lines() { if !l.starts_with("//@vc") { out.push_str(l); out.push('\n'); } } }
         } else if id.starts_with("__vx_cl_") {
